@@ -4,7 +4,7 @@
    execution only. *)
 From Coq Require Import List NArith ZArith Bool Arith.
 Import ListNotations.
-From Stam Require Import Base.Sx Model.Offset Model.Store Model.Loader Model.Csv Spec.CsvSpec Proofs.Loader Proofs.StoreIds Proofs.StoreSets Proofs.Csv Proofs.CsvSet Proofs.CsvResolve Proofs.CsvStore.
+From Stam Require Import Base.Sx Model.Offset Model.Store Model.Loader Model.Csv Spec.CsvSpec Proofs.Loader Proofs.StoreIds Proofs.StoreSets Proofs.Csv Proofs.CsvSet Proofs.CsvResolve Proofs.CsvStore Proofs.ValidateProtect Proofs.CsvReach.
 
 (* splitting a column on ';' gives back the values that were joined, for any number of values *)
 Theorem C15_split_join : forall l, (forall x, In x l -> has_semi x = false) -> l <> [] ->
@@ -110,14 +110,27 @@ Theorem C15_load_save : forall s f, Good s -> save s = Some f ->
   exists s', load f = LOk s' /\ content s' = content s.
 Proof. exact load_save_content. Qed.
 
-(* ... in particular for every REACHABLE store outside the two known classes: the model of the
-   round trip equals the specification.  The remaining hypotheses are decidable and evaluated on
-   every explored store by Run/C15.v (hyps_ok, save <> None) or concern the size of numbers
-   (ids_fit); Forall op_ok is C03's hypothesis on data ids *)
-Theorem C15_statement : forall ops, Forall op_ok ops -> ids_fit (run ops) -> hyps_ok (run ops) = true ->
-  known_class (run ops) = 0 -> save (run ops) <> None ->
+(* the conditions hold for every reachable store: ranges inside their resource (StoreRange),
+   relative selections inside the selection of their live parent (ValidateNest), targets with
+   smaller handles and nothing dangling (StoreData), targets never change (StoreStable), and
+   - proved here - every target has one of the shapes of the API *)
+Theorem C15_hyps_ok : forall ops, Forall op_ok ops -> Forall kind_ok ops -> lens_fit (run ops) ->
+  hyps_ok (run ops) = true.
+Proof. exact reachable_hyps_ok. Qed.
+
+(* the writer never panics on a reachable store *)
+Theorem C15_save_total : forall ops, Forall op_ok ops -> Forall kind_ok ops -> save (run ops) <> None.
+Proof. exact reachable_save. Qed.
+
+(* THE PROPERTY for every reachable store (any history of add / annotate / remove operations)
+   outside the two known classes: the model of save-then-load equals the specification.  What is
+   left as hypothesis concerns the size of numbers (ids_fit: tokens and handles below 2^64,
+   lens_fit: text lengths up to isize::MAX), C03's condition on data ids (op_ok) and the three
+   complex selector kinds of the API (kind_ok) *)
+Theorem C15_statement : forall ops, Forall op_ok ops -> Forall kind_ok ops ->
+  ids_fit (run ops) -> lens_fit (run ops) -> known_class (run ops) = 0 ->
   sx_of_loaded (roundtrip (run ops)) = roundtrip_spec (run ops).
-Proof. exact reachable_roundtrip. Qed.
+Proof. exact reachable_roundtrip_uncond. Qed.
 
 (* the known classes are real failures of the full property *)
 Theorem C15_tempid_refuted :
